@@ -245,12 +245,11 @@ let oracle line =
           let evfree = List.for_all event_free_op script in
           (* and of the two disciplines: a trace of client calls that the predictive checker (LifeSpec.v) accepts
              must, with the library's frame references that the model recorded, be accepted by the checker for
-             histories with events (LifeSpecEv.v) -- drag events apart, which that one leaves out *)
+             histories with events (LifeSpecEv.v) *)
           let full = (match run_script fixed fuel script with VOk h -> h.tr | VFault (_, _, h) -> h.tr | VNoFuel _ -> []) in
-          let has_drag = List.exists (function OMouse MDrag -> true | _ -> false) full in
           if evfree && wf_client script && not (client_okb fuel script (heap0 fixed))
           then "BAD discipline accepts a history outside the theorems' hypothesis"
-          else if full <> [] && not has_drag && wf_client (List.filter client_call (List.rev full)) && not (wf_trace full)
+          else if full <> [] && wf_client (List.filter client_call (List.rev full)) && not (wf_trace full)
           then "BAD the discipline for histories with events rejects a trace that the client discipline accepts"
           else if oracle_W ops completed leak then "OK" else "BAD well-formed client, implementation: " ^ obs)
      | "O" :: toks ->
